@@ -182,6 +182,9 @@ func (c17) Gen(r *core.Rand, tier string) interface{} {
 		s.Pred = PredSpec{Kind: "threshold", N: r.Pick(0, 1, 184, 185, 368, 500, 1000, r.Range(1, 1500))}
 	}
 	n := r.Pick(1, 2, 3, 4, 6, 10, 20, 40, 60)
+	if tier == "thorough" && r.Chance(1, 8) {
+		n = r.Pick(100, 200, 400)
+	}
 	// most histories start a unit early so that they make progress
 	for i := 0; i < n; i++ {
 		op := c17GenOp(r, i, true)
